@@ -244,8 +244,7 @@ def fmt_exp(x):
         m = m.quantize(Decimal("0.00001"))
     if not (-9 <= ex <= 9):
         raise ValueError("exponent not printable")
-    return "%s%s%s%d" % (sign, format(m, "f")[2:], "-" if ex <= 0 and ex != 0 or ex == 0 and False else "+" if ex > 0 else "+", abs(ex)) \
-        if ex != 0 else "%s%s+0" % (sign, format(m, "f")[2:])
+    return "%s%s%s%d" % (sign, format(m, "f")[2:], "+" if ex >= 0 else "-", abs(ex))
 
 
 def fmt_epoch(dt):
@@ -254,7 +253,7 @@ def fmt_epoch(dt):
     us = ((dt.hour * 60 + dt.minute) * 60 + dt.second) * 10 ** 6 + dt.microsecond
     frac = Fraction(us, 86400 * 10 ** 6)
     q = _q(Fraction(doy) + frac, 8)
-    return "%02d%012.8f" % (dt.year % 100, q) if False else "%02d%s" % (dt.year % 100, format(q, "f").rjust(12, "0"))
+    return "%02d%s" % (dt.year % 100, format(q, "f").rjust(12, "0"))
 
 
 def epoch_datetime(dec):
